@@ -52,6 +52,153 @@ pub fn parse_offsets_text(text: &str) -> Vec<(Vec<u64>, u64)> {
     out
 }
 
+/// "every local's register is the register that the emitted instructions use for it, and every
+/// constant's value is the value the compiler used", judged against the file on disk through the
+/// reader's text:
+///  * a local declared with an initialiser (`int x = EXPR;`): the last instruction whose source span
+///    contains the local's name is the one that stores into it, so its first argument, as the reader
+///    prints it, must be the register the debug info binds the local to;
+///  * a statement that is a plain call passing a named constant (`ins_701(GC1);`): the argument the
+///    reader finds at that position must be the value the debug info records for the constant.
+/// Everything that does not have exactly these shapes is skipped (counted), never judged.
+fn check_locals_and_consts(w: &mut Worker, case: &Case, doc: &Value, scripts: &[Value], from_json: &[(Vec<u64>, u64)], from_reader: &[(Vec<u64>, u64)], reader_text: &str) -> Vec<Violation> {
+    use crate::checks::fields::{parse_doc, Val};
+    let mut v = vec![];
+    let src: Vec<u8> = match crate::case::materialise(&case.inputs, &w.ctx.corpus).into_iter().find(|(p, _)| p == scen::SRC) {
+        Some((_, d)) => d.as_ref().clone(),
+        None => return v,
+    };
+    let src_id = doc["source-files"].as_array().and_then(|a| a.iter().find(|f| f["name"] == scen::SRC).and_then(|f| f["id"].as_u64()));
+    let src_id = match src_id {
+        Some(i) => i,
+        None => return v,
+    };
+    let rdoc = match parse_doc(reader_text) {
+        Ok(d) => d,
+        Err(_) => {
+            w.stats.probe("debuginfo:reader-text-not-flat(skip locals/consts)");
+            return v;
+        }
+    };
+    if rdoc.scripts.len() != from_reader.len() {
+        return v;
+    }
+    // register aliases the reader may print: !gvar_names of the mapfiles in the sandbox
+    let mut alias: BTreeMap<String, i64> = BTreeMap::new();
+    for (p, d) in crate::case::materialise(&case.inputs, &w.ctx.corpus) {
+        if !p.starts_with("mapfile-") {
+            continue;
+        }
+        let mut in_gvars = false;
+        for line in String::from_utf8_lossy(&d).lines() {
+            let line = line.trim();
+            if line.starts_with('!') {
+                in_gvars = line == "!gvar_names";
+            } else if in_gvars {
+                if let Some((a, b)) = line.split_once(' ') {
+                    if let Ok(n) = a.parse::<i64>() {
+                        alias.insert(b.trim().to_string(), n);
+                    }
+                }
+            }
+        }
+    }
+    let reg_of = |x: &Val| -> Option<i64> {
+        match x {
+            Val::Ident(s) => {
+                let t = s.trim_start_matches('$').trim_start_matches('%');
+                if let Some(r) = t.strip_prefix("REG[").and_then(|r| r.strip_suffix(']')) {
+                    r.parse::<i64>().ok()
+                } else {
+                    alias.get(t).copied()
+                }
+            }
+            _ => None,
+        }
+    };
+    let span_of = |x: &Value| -> Option<(usize, usize)> {
+        let a = x.as_array()?;
+        if a.len() == 3 && a[0].as_u64() == Some(src_id) {
+            Some((a[1].as_u64()? as usize, a[2].as_u64()? as usize))
+        } else {
+            None
+        }
+    };
+    let consts: BTreeMap<String, Value> = doc["consts"].as_array().map(|a| a.iter().filter(|c| span_of(&c["name-span"]).is_some()).filter_map(|c| c["name"].as_str().map(|n| (n.to_string(), c["value"].clone()))).collect()).unwrap_or_default();
+    for (j, sc) in scripts.iter().enumerate() {
+        // the reader's script with the same offsets (unique), instruction k <-> instruction k
+        let cands: Vec<usize> = (0..from_reader.len()).filter(|&r| from_reader[r] == from_json[j]).collect();
+        if cands.len() != 1 {
+            continue;
+        }
+        let rs = &rdoc.scripts[cands[0]];
+        let instrs = sc["instrs"].as_array().cloned().unwrap_or_default();
+        if rs.instrs.len() != instrs.len() {
+            continue;
+        }
+        // ---- locals
+        for l in sc["locals"].as_array().cloned().unwrap_or_default() {
+            let (name, ns, reg) = match (l["name"].as_str(), span_of(&l["name-span"]), l["bound-to"]["reg"].as_i64()) {
+                (Some(n), Some(s), Some(r)) => (n, s, r),
+                _ => continue,
+            };
+            if src.get(ns.0..ns.1) != Some(name.as_bytes()) {
+                continue; // a synthesised local (loop counter)
+            }
+            // declaration with initialiser: "<type> ... name = ..." -- the text after the name starts with '='
+            let after = String::from_utf8_lossy(&src[ns.1..(ns.1 + 8).min(src.len())]).trim_start().to_string();
+            if !after.starts_with('=') || after.starts_with("==") {
+                continue;
+            }
+            let last = instrs.iter().enumerate().filter(|(_, i)| span_of(&i["span"]).map_or(false, |(a, b)| a <= ns.0 && ns.1 <= b)).map(|(k, _)| k).last();
+            let k = match last {
+                Some(k) => k,
+                None => continue,
+            };
+            match rs.instrs[k].args.first().and_then(|x| reg_of(x)) {
+                Some(r) if r == reg => w.stats.probe("debuginfo:local-register-cross-checked"),
+                Some(r) => v.push(Violation { class: "debuginfo:local-register".into(), detail: format!("script {:?}: local '{}' is bound to register {} in the debug info, but the instruction that initialises it ({} at offset {}) stores into register {}", sc["name"], name, reg, rs.instrs[k].name, from_json[j].0[k], r) }),
+                None => w.stats.probe("debuginfo:local-initialiser-not-recognised(skip)"),
+            }
+        }
+        // ---- constants used as plain call arguments
+        for (k, i) in instrs.iter().enumerate() {
+            let (a, b) = match span_of(&i["span"]) {
+                Some(x) => x,
+                None => continue,
+            };
+            let text = match src.get(a..b) {
+                Some(t) => String::from_utf8_lossy(t).into_owned(),
+                None => continue,
+            };
+            // parse "name(args)" with the flat parser by wrapping it into a script
+            let stmt = if text.trim_end().ends_with(';') { text.clone() } else { format!("{};", text) };
+            let call = match parse_doc(&format!("script x {{ {} }}", stmt)) {
+                Ok(d) if d.scripts.len() == 1 && d.scripts[0].instrs.len() == 1 => d.scripts[0].instrs[0].clone(),
+                _ => continue,
+            };
+            if call.args.len() != rs.instrs[k].args.len() || !call.name.starts_with("ins_") {
+                continue;
+            }
+            for (ai, arg) in call.args.iter().enumerate() {
+                if let Val::Ident(n) = arg {
+                    if let Some(val) = consts.get(n) {
+                        let want: Option<Val> = if let Some(x) = val["int"].as_i64() { Some(Val::Int(x)) } else { val["float"].as_f64().map(|f| Val::Float(f as f32)) };
+                        let got = &rs.instrs[k].args[ai];
+                        match (&want, got) {
+                            (Some(Val::Int(x)), Val::Int(y)) if (*x as i32) == (*y as i32) => w.stats.probe("debuginfo:const-value-cross-checked"),
+                            (Some(Val::Float(x)), Val::Float(y)) if x.to_bits() == y.to_bits() => w.stats.probe("debuginfo:const-value-cross-checked"),
+                            (Some(Val::Int(_)), Val::Int(_)) | (Some(Val::Float(_)), Val::Float(_)) => v.push(Violation { class: "debuginfo:const-value".into(), detail: format!("script {:?}: const '{}' has value {} in the debug info, but `{}` was compiled with {:?} at argument {}", sc["name"], n, val, text.trim(), got, ai) }),
+                            _ => w.stats.probe("debuginfo:const-use-not-comparable(skip)"),
+                        }
+                    }
+                }
+            }
+        }
+    }
+    v
+}
+
 pub fn oracle_debuginfo(w: &mut Worker, case: &Case) -> Vec<Violation> {
     let all = w.golden(case);
     let mut v = vec![];
@@ -162,6 +309,9 @@ pub fn oracle_debuginfo(w: &mut Worker, case: &Case) -> Vec<Violation> {
         if !seen.is_empty() && v.is_empty() {
             w.stats.probe("debuginfo:script-indices-cross-checked");
         }
+    }
+    if v.is_empty() && case.name.starts_with("debuginfo:") {
+        v.extend(check_locals_and_consts(w, case, &doc, &scripts, &a, &from_reader, &text));
     }
     a.sort();
     from_reader.sort();
